@@ -840,7 +840,7 @@ Definition enc_paths (l : list path) : sexp := SList (map (fun p => SStr (dotted
 
 (* names whose alias chain passes over a replaced alias member, with every target they may present *)
 Definition enc_alts (t : table) (top : string) (rp : list (path * string * member)) : sexp :=
-  let fuel := S (List.length t * 8 + 64) in
+  let fuel := 14 in        (* `finals` branches at every replaced member: a small depth bound keeps cyclic packages cheap *)
   match rp with
   | [] => SList []
   | _ => SList (flat_map (fun pst =>
